@@ -5,7 +5,7 @@ import hashlib
 from sa.loader import AnalysisError, norm, walk_local
 from sa.cfg import cfg_of
 from sa.spec import schema_spec as spec
-from .common import true_facts, analysis, names_in, eq_texts, ne_texts
+from .common import true_facts, analysis, names_in, eq_texts, ne_texts, assigned_values
 
 PROP = "C14"
 TECHNIQUE = "constant folding of the advertised algorithm set and the Java-name mapping; CFG dominance of the unknown-algorithm guard over all hashing; def-use of the hashed bytes (UTF-8); frame of the Rabin routine (seed constant, 8-byte little-endian hex rendering, no module-level state)"
@@ -40,6 +40,25 @@ def run(ctx):
                 ctx.rule(r_, txt, floor=1)
             ctx.unrecognised(r_, "fingerprint", f.where(), "no call of rabin_fingerprint / hashlib in fingerprint: the hashing is delegated to code this rule does not follow")
         return
+    # "for every text": nothing about the text itself is a reason to refuse it (only an unknown algorithm is)
+    other_raises = []
+    for n in walk_local(f.node):
+        if isinstance(n, ast.Raise):
+            fs = true_facts(cfg, cfg.node_of(n))
+            names_ = {x.id for t in fs for x in ast.walk(ast.parse(t, mode="eval")) if isinstance(x, ast.Name)}
+            dep = set()
+            for nm_ in names_:
+                if nm_ == text_p:
+                    dep.add(nm_)
+                else:
+                    for v_ in assigned_values(f.node, nm_):
+                        if any(isinstance(x, ast.Name) and x.id == text_p for x in ast.walk(v_)):
+                            dep.add(nm_)
+            # facts about the text other than "it is (not) a str"
+            about = [t for t in fs if any(isinstance(x, ast.Name) and x.id in dep for x in ast.walk(ast.parse(t, mode="eval"))) and not (t.startswith("isinstance(") or t.startswith("not isinstance("))]
+            if about:
+                other_raises.append((n, sorted(about)))
+    ctx.check("C14.R1", "no text is refused: the only raise of fingerprint depends on the algorithm name", not other_raises, f.where(other_raises[0][0]) if other_raises else f.where(), f"fingerprint: `{norm(other_raises[0][0])[:70]}` under {other_raises[0][1][:3]}" if other_raises else "", "the fingerprint is defined for every text (it is the digest of its UTF-8 bytes): a check of what the text looks like makes fingerprint raise for texts fastavro itself produces (canonical forms with names outside printable ASCII) and for any other text a caller hashes")
     member = f"{alg_p} in FINGERPRINT_ALGORITHMS"
     nonmember = f"{alg_p} not in FINGERPRINT_ALGORITHMS"
     raises = [n for n in walk_local(f.node) if isinstance(n, ast.Raise) and n.exc is not None and "ValueError" in norm(n.exc) and nonmember in true_facts(cfg, cfg.node_of(n))]
